@@ -487,7 +487,9 @@ def check_pool_model(ctx):
                     dict(op='add_batch', idx=0, full=True), dict(op='add_batch', idx=1, full=True), dict(op='save'),
                     dict(op='get_batch', idx=1), dict(op='remove_store', node=first), dict(op='save'), dict(op='open'),
                     dict(op='get_batch', idx=0), dict(op='add_batch', idx=0, full=True), dict(op='add_batch', idx=2 if not array else 2, full=True),
-                    dict(op='add_store', node=first), dict(op='save'), dict(op='open'), dict(op='get_batch', idx=2)]
+                    dict(op='add_store', node=first), dict(op='save'), dict(op='open'), dict(op='get_batch', idx=2),
+                    # a store that holds NO batch when the pool is saved must still be there when it is opened
+                    dict(op='add_store', node='fresh'), dict(op='save'), dict(op='open'), dict(op='get_batch', idx=0)]
                 if it % 2:
                     plan.insert(3, dict(op='open'))
             n_ops = len(plan) or rng.randint(3, 12)
